@@ -6,8 +6,10 @@ import (
 	"context"
 	"errors"
 	"fmt"
+	"net/http"
 	"regexp"
 	"testing"
+	"time"
 
 	"github.com/apache/arrow-go/v18/arrow"
 
@@ -250,7 +252,10 @@ func TestVerif_C05(t *testing.T) {
 
 	// Framework-originated errors through the real paths.
 	fw := []string{"pipe-unknown-method", "http-unknown-method", "pipe-protover", "http-protover", "http-protover-init",
-		"http-wire-cap-unary", "http-wire-cap-exchange", "pipe-param-mismatch", "http-param-mismatch", "pipe-no-emit", "http-no-emit", "pipe-finish-on-exchange"}
+		"http-wire-cap-unary", "http-wire-cap-exchange", "pipe-param-mismatch", "http-param-mismatch", "pipe-no-emit", "http-no-emit", "pipe-finish-on-exchange",
+		// sticky-session refusals produced by the framework on its real paths
+		"http-open-while-draining", "http-init-open-while-draining", "http-session-malformed", "http-session-tampered",
+		"http-session-other-worker", "http-session-deleted", "http-session-other-principal", "http-session-on-init"}
 	venum.Explore(t, venum.Cfg{Name: "framework-errors"}, func(x *venum.X) {
 		site := fw[x.Choose(len(fw), "site")]
 		debug := x.Bool("debug")
@@ -273,10 +278,98 @@ func TestVerif_C05(t *testing.T) {
 			}
 			return &StreamResult{OutputSchema: vfOutSchema, State: &VfExchanger{S: VfScript{Turns: []VfTurn{turn}}}}, nil
 		})
+		// opens a session when asked to; hands the framework's refusal straight back
+		Unary(s, "sess", func(ctx context.Context, cc *CallContext, p VfXParams) (int64, error) {
+			if p.X == 1 {
+				if err := cc.OpenSession(&vfC05Sess{}, time.Minute); err != nil {
+					return 0, err
+				}
+			}
+			return 7, nil
+		})
+		Exchange(s, "sessx", vfOutSchema, vfInSchema, func(ctx context.Context, cc *CallContext, p VfXParams) (*StreamResult, error) {
+			if p.X == 1 {
+				if err := cc.OpenSession(&vfC05Sess{}, time.Minute); err != nil {
+					return nil, err
+				}
+			}
+			return &StreamResult{OutputSchema: vfOutSchema, State: &VfExchanger{S: VfScript{Turns: []VfTurn{{Emit: 1, Rows: 1}}}}}, nil
+		})
+		sticky := func(id string) *HttpServer {
+			s.SetServerID(id)
+			h, _ := NewHttpServerWithKey(s, []byte("0123456789abcdef0123456789abcdef"))
+			h.SetAuthenticate(func(r *http.Request) (*AuthContext, error) {
+				if who := r.Header.Get("X-Id"); who != "" {
+					return &AuthContext{Domain: "test", Authenticated: true, Principal: who}, nil
+				}
+				return Anonymous(), nil
+			})
+			h.EnableSticky(time.Minute)
+			return h
+		}
+		openTok := func(h *HttpServer) string {
+			rec, _ := vfArrowPost(h, "/sess", vfXReq("sess", 1), "X-Id", "alice", "VGI-Session-Accept", "true")
+			tok := rec.Header().Get("VGI-Session")
+			if tok == "" {
+				venum.EngineError("C05 harness: cannot open a sticky session (status %d)", rec.Code)
+			}
+			return tok
+		}
 		var body []byte
 		var pan any
 		wantType, wantKind := "", ""
 		switch site {
+		case "http-open-while-draining":
+			h := sticky("w1")
+			h.DrainHandle().Drain()
+			rec, p := vfArrowPost(h, "/sess", vfXReq("sess", 1), "X-Id", "alice", "VGI-Session-Accept", "true")
+			body, pan = rec.Body.Bytes(), p
+			wantType, wantKind = "ServerDrainingError", "server_draining"
+		case "http-init-open-while-draining":
+			h := sticky("w1")
+			h.DrainHandle().Drain()
+			rec, p := vfArrowPost(h, "/sessx/init", vfXReq("sessx", 1), "X-Id", "alice", "VGI-Session-Accept", "true")
+			body, pan = rec.Body.Bytes(), p
+			wantType, wantKind = "ServerDrainingError", "server_draining"
+		case "http-session-malformed":
+			rec, p := vfArrowPost(sticky("w1"), "/sess", vfXReq("sess", 0), "X-Id", "alice", "VGI-Session", "not-a-token")
+			body, pan = rec.Body.Bytes(), p
+			wantType, wantKind = "SessionLostError", "session_lost"
+		case "http-session-tampered":
+			h := sticky("w1")
+			tok := []byte(openTok(h))
+			if len(tok) > 12 {
+				if tok[len(tok)-6] == 'A' {
+					tok[len(tok)-6] = 'B'
+				} else {
+					tok[len(tok)-6] = 'A'
+				}
+			}
+			rec, p := vfArrowPost(h, "/sess", vfXReq("sess", 0), "X-Id", "alice", "VGI-Session", string(tok))
+			body, pan = rec.Body.Bytes(), p
+			wantType, wantKind = "SessionLostError", "session_lost"
+		case "http-session-other-worker":
+			tok := openTok(sticky("w1"))
+			rec, p := vfArrowPost(sticky("w2"), "/sess", vfXReq("sess", 0), "X-Id", "alice", "VGI-Session", tok)
+			body, pan = rec.Body.Bytes(), p
+			wantType, wantKind = "SessionLostError", "session_lost"
+		case "http-session-deleted":
+			h := sticky("w1")
+			tok := openTok(h)
+			vfHTTP(h, "DELETE", "/__session__", nil, "X-Id", "alice", "VGI-Session", tok)
+			rec, p := vfArrowPost(h, "/sess", vfXReq("sess", 0), "X-Id", "alice", "VGI-Session", tok)
+			body, pan = rec.Body.Bytes(), p
+			wantType, wantKind = "SessionLostError", "session_lost"
+		case "http-session-other-principal":
+			h := sticky("w1")
+			tok := openTok(h)
+			rec, p := vfArrowPost(h, "/sess", vfXReq("sess", 0), "X-Id", "bob", "VGI-Session", tok)
+			body, pan = rec.Body.Bytes(), p
+			wantType, wantKind = "SessionLostError", "session_lost"
+		case "http-session-on-init":
+			rec, p := vfArrowPost(sticky("w1"), "/sessx/init", vfXReq("sessx", 0), "X-Id", "alice", "VGI-Session", "not-a-token")
+			body, pan = rec.Body.Bytes(), p
+			wantType, wantKind = "SessionLostError", "session_lost"
 		case "pipe-unknown-method":
 			body, _, pan = vfServePipe(s, vfXReq("nope", 1))
 			wantType, wantKind = "AttributeError", "MethodNotImplementedError"
@@ -393,3 +486,7 @@ func indexOf(s, sub string) int {
 	}
 	return -1
 }
+
+type vfC05Sess struct{}
+
+func (*vfC05Sess) Close() error { return nil }
